@@ -157,7 +157,8 @@ func (r *runner) forwardSliceStruct(v0 reflect.Value, f *mfield, rt reflect.Type
 
 // write sets the translated leaf tl of root (a value of the translated type)
 // and the corresponding leaf of exp (a value of T0).
-func (r *runner) write(root, exp reflect.Value, tl tleaf, seed uint64) error {
+func (r *runner) write(root, exp reflect.Value, tl tleaf, fe FillEntry) error {
+	seed := fe.Seed
 	kt := r.c.Chain.KeyTags
 	v := root
 	var slot reflect.Value
@@ -178,6 +179,11 @@ func (r *runner) write(root, exp reflect.Value, tl tleaf, seed uint64) error {
 	}
 	f := tl.f
 	v0 := makeLeaf(f.otype, seed, r.plain, hasConv(f, "strcast"))
+	if fe.Empty {
+		if ev, ok := emptyValue(f); ok {
+			v0 = ev
+		}
+	}
 	var tv, want reflect.Value
 	var err error
 	if f.kind == kSliceStruct {
@@ -301,7 +307,7 @@ func (r *runner) roundTrip(fills []FillEntry, what string) *vrt.Verdict {
 			continue
 		}
 		filled[fe.Path] = true
-		if err := r.write(tv, exp, tl, fe.Seed); err != nil {
+		if err := r.write(tv, exp, tl, fe); err != nil {
 			v := vrt.Discardf("harness cannot write the case: %v", err)
 			// a malformed replay; a generated case never gets here
 			if strings.HasPrefix(err.Error(), "no field with key") {
@@ -484,6 +490,18 @@ func runC10(c Case) vrt.Verdict {
 	deep := false
 	for _, fe := range c.Fill {
 		if tl, ok := md.pick(fe.Path, c.Sides); ok {
+			if fe.Empty {
+				if ev, ok := emptyValue(tl.f); ok {
+					what := "empty-collection"
+					if ev.Kind() == reflect.Pointer && ev.Elem().Kind() == reflect.String {
+						what = "empty-string"
+					}
+					convs[what] = true
+					if hasConv(tl.f, "strcast") {
+						convs[what+"-through-strcast"] = true
+					}
+				}
+			}
 			for _, cv := range tl.f.convs {
 				convs[cv] = true
 			}
@@ -522,7 +540,7 @@ func runC10(c Case) vrt.Verdict {
 }
 
 const c10Rule = "a config struct type from the full shape grammar (scalars, durations, text-unmarshalable and named types, slices, arrays, maps, sets, user pointers, nested / pointer / embedded structs incl. embedded types with tagged and aliased fields, slices of structs, skipped fields; depth<=3, <=8 fields per struct) with generated dials / alias / source-specific / format tags whose words are known by construction; T0 = Pointerify(T); " +
-	"%s; a subset of the original leaves is written THROUGH their translated counterparts (values from seeds, converted forward by the model: set->slice, Duration->ParsingDuration, own text rendering for string casts, the type's own MarshalText for text-unmarshalers), for every aliased field through either the primary or the alias copy; in 3 of 4 cases every slice written into the translated value (top level, inside maps / pointers / arrays, inside elements of slices of structs) carries 1..3 elements of spare capacity holding junk, as append-grown decoder output does. " +
+	"%s; a subset of the original leaves is written THROUGH their translated counterparts (values from seeds, converted forward by the model: set->slice, Duration->ParsingDuration, own text rendering for string casts, the type's own MarshalText for text-unmarshalers), for every aliased field through either the primary or the alias copy; in 3 of 4 cases every slice written into the translated value (top level, inside maps / pointers / arrays, inside elements of slices of structs) carries 1..3 elements of spare capacity holding junk, as append-grown decoder output does; with probability 3/8 a written leaf takes its EMPTY value instead of the seeded one -- the empty string for string leaves (through a string cast: a translated *string pointing to \"\", which must reverse to a non-nil pointer to \"\", not to an unset leaf) and a non-nil empty slice / map / set for collections (text \"\" through a string cast). " +
 	"Oracle: a descriptor-level model of each mangler gives every translated field its documented key (flattened dials / dialsenv / dialsflag / dialspflag tag, json / yaml / toml tag or Go name per nesting level, alias value for alias copies), type and conversion; translated fields are located by that key only; required: TranslateType yields exactly the model's key set and leaf types at every level, the reverse-translated value has type T0, each written leaf holds the value converted back, every other leaf is nil, parent pointers are allocated iff a leaf below is set, and an all-empty translated value reverses to an all-nil T0. " +
 	"non-trivial = chain length >= 2 and the shape has nesting (or an aliased field before a nested one); distinct = distinct case JSON"
 
